@@ -11,7 +11,7 @@ from .. import world as W
 from ..algebra import ToSympy
 from ..equiv import same
 from ..interp import Obj, Unsupported
-from ..report import AnalysisError, Finding
+from ..report import AnalysisError, Finding, single
 from ..term import Op, Sym, is_num, walk
 from ..units import ONE, POLY, U, UnitChecker
 
@@ -217,7 +217,7 @@ def check(ctx, run):
     run.require("C20.R3", 3)
     fi = E.functional(ctx, "ww_width")
     g, S_, c_, a_ = [W.tensor(n) for n in ("gamma", "spot", "cost", "a")]
-    val = [r for r in interp.explore(fi, [], dict(gamma=g, spot=S_, cost=c_, a=a_)) if not r["raises"]][0]["value"]
+    val = single(interp.explore(fi, [], dict(gamma=g, spot=S_, cost=c_, a=a_)))["value"]
     ts = ToSympy(assume_positive={"spot", "cost", "a"})  # gamma is any real number: European binaries have negative gamma above the strike
     e = ts.conv(val)
     want = (sp.Rational(3, 2) * ts.sym("cost") * ts.sym("gamma") ** 2 * ts.sym("spot") / ts.sym("a")) ** sp.Rational(1, 3)
@@ -271,7 +271,7 @@ def check(ctx, run):
     run.require("C20.R4", 4)
     fi = E.functional(ctx, "svi_variance")
     k, a, b, rho, m, sg = [W.tensor(n) for n in ("k", "a", "b", "rho", "m", "sigma")]
-    val = [r for r in interp.explore(fi, [], dict(input=k, a=a, b=b, rho=rho, m=m, sigma=sg)) if not r["raises"]][0]["value"]
+    val = single(interp.explore(fi, [], dict(input=k, a=a, b=b, rho=rho, m=m, sigma=sg)))["value"]
     ts = ToSympy()
     e = ts.conv(val)
     sy = {n: ts.sym(n) for n in ("k", "a", "b", "rho", "m", "sigma")}
@@ -290,7 +290,7 @@ def check(ctx, run):
         run.fail(Finding("C20.R4", fwd.qualname, "svi_variance(input, a=self.a, b=self.b, rho=self.rho, m=self.m, sigma=self.sigma)", "module does not forward its parameters", file=str(prog.modules[fwd.module].path), line=fwd.node.lineno))
     fi = E.functional(ctx, "bilerp")
     i1, i2, i3, i4, w1, w2 = [W.tensor(n) for n in ("i1", "i2", "i3", "i4", "w1", "w2")]
-    val = [r for r in interp.explore(fi, [i1, i2, i3, i4, w1, w2], {}) if not r["raises"]][0]["value"]
+    val = single(interp.explore(fi, [i1, i2, i3, i4, w1, w2], {}))["value"]
 
     def lerp_hook(ts_, t):
         if isinstance(t, Op) and t.op == "lerp":
@@ -308,7 +308,7 @@ def check(ctx, run):
         run.fail(Finding("C20.R4", fi.qualname, str(sp.expand(e)), "differs from the bilinear interpolation formula", file=str(prog.modules[fi.module].path), line=fi.node.lineno))
     fi = E.functional(ctx, "box_muller")
     u1, u2 = W.tensor("u1"), W.tensor("u2")
-    val = [r for r in interp.explore(fi, [u1, u2], {}) if not r["raises"]][0]["value"]
+    val = single(interp.explore(fi, [u1, u2], {}))["value"]
     ts = ToSympy(assume_positive={"u1", "u2"})
     o1, o2 = ts.conv(val[0]), ts.conv(val[1])
     U1, U2 = ts.sym("u1"), ts.sym("u2")
@@ -319,7 +319,7 @@ def check(ctx, run):
     if not ok:
         run.fail(Finding("C20.R4", fi.qualname, f"{o1} ; {o2}", "differs from (r cos 2 pi u2, r sin 2 pi u2), r = sqrt(-2 log max(u1, eps))", file=str(prog.modules[fi.module].path), line=fi.node.lineno))
     fi = E.functional(ctx, "realized_volatility")
-    val = [r for r in interp.explore(fi, [], dict(input=W.tensor("S"), dt=W.fl("dt"))) if not r["raises"]][0]["value"]
+    val = single(interp.explore(fi, [], dict(input=W.tensor("S"), dt=W.fl("dt"))))["value"]
     calls = [e for r in interp.explore(fi, [], dict(input=W.tensor("S"), dt=W.fl("dt"))) for e in r["events"] if e["kind"] == "call" and e["callee"] == E.F + "realized_variance"]
     ok = isinstance(val, Op) and val.op == "sqrt" and len(calls) == 1
     run.oblige("C20.R4", "realized_volatility == sqrt(realized_variance)", ok, str(val)[:100])
